@@ -233,6 +233,11 @@ class SModel(KModel):
             if isinstance(k, Num) and k.const() is not None and k.const() >= 0:
                 return Obj('rowiter', tree=('skip', as_rowiter(a0).d['tree'], int(k.const())))
             raise Unsupported("skip by a non-literal count", e)
+        if name == 'std::iter::Iterator::take' and as_rowiter(a0) is not None:
+            k = deref_all(args[1])
+            if isinstance(k, Num):
+                return Obj('rowiter', tree=('take', as_rowiter(a0).d['tree'], k.r))
+            raise Unsupported("take by an unknown count", e)
         if name in ('std::iter::Iterator::for_each',) and as_rowiter(a0) is not None:
             clo = args[1]
             return self.loop_call(None, lambda: self.iterate_rows(as_rowiter(a0).d['tree'], lambda elem: self.interp.apply(clo, [elem], e), e))
@@ -645,6 +650,9 @@ class SModel(KModel):
             return Obj('window', axis=tree[1], i=j + off, size=tree[2])
         if kind == 'skip':
             return self._rowiter_elem(tree[1], j, lens, e, off + tree[2])
+        if kind == 'take':
+            lens.append(tree[2] - off)          # the first `count` positions of the inner iterator (skips outside it already counted)
+            return self._rowiter_elem(tree[1], j, lens, e, off)
         if kind == 'zip':
             return Tup([self._rowiter_elem(tree[1], j, lens, e, off), self._rowiter_elem(tree[2], j, lens, e, off)])
         if kind == 'enum':
